@@ -478,7 +478,7 @@ func init() {
 		Assume: []string{"schedules are sampled (stress, GOMAXPROCS variation, yield hooks), not enumerated", "a porcupine timeout (30 s) is inconclusive"},
 		Floor:  50,
 		Phases: func(tier string, seed int64) []rt.Phase {
-			gh, sh, bqlr, rg := 320, 96, 48, 96
+			gh, sh, bqlr, rg := 320, 96, 48, 64
 			if tier == "thorough" {
 				gh, sh, bqlr, rg = 5000, 1500, 500, 1000
 			}
